@@ -528,7 +528,96 @@ def _rotate_walrus_while(s, out):
     return s
 
 
+_FUNC_TAIL = [None]
+
+
+def _hoist_leading_breaks(s, last=False):
+    """C29: `while True: if c1: break; if c2: break; B`  ->  `while not c1 and not c2: B` (no else clause).  When the loop is
+    the last statement of a function, a leading `if c: return` (no value) leaves the function exactly as `break` would."""
+    if s.orelse or not (isinstance(s.test, ast.Constant) and s.test.value is True):
+        return
+    conds = []
+    body = list(s.body)
+    while body and isinstance(body[0], ast.If) and not body[0].orelse and len(body[0].body) == 1 and (
+            isinstance(body[0].body[0], ast.Break)
+            or (last and isinstance(body[0].body[0], ast.Return) and (body[0].body[0].value is None or (
+                isinstance(body[0].body[0].value, ast.Constant) and body[0].body[0].value.value is None)))):
+        conds.append(body[0].test)
+        body = body[1:]
+    if not conds or not body:
+        return
+    neg = [_Expr().visit(ast.copy_location(ast.UnaryOp(op=ast.Not(), operand=c), c)) for c in conds]
+    s.test = neg[0] if len(neg) == 1 else ast.copy_location(ast.BoolOp(op=ast.And(), values=neg), s.test)
+    s.test = _Expr().visit(s.test)
+    s.body = body
+    ast.fix_missing_locations(s)
+
+
+def _merge_try_else_unpack(s):
+    """C30: `try: ...; t = CALL  except E: H  else: a, b = t; R`  ->  `try: ...; a, b = CALL  except E: H  else: R` (unpacking a
+    local cannot raise what the handlers catch when they name exception classes of calls; t is used nowhere else)."""
+    if not (s.body and s.orelse and not s.finalbody):
+        return
+    b, e = s.body[-1], s.orelse[0]
+    if not (isinstance(b, ast.Assign) and len(b.targets) == 1 and isinstance(b.targets[0], ast.Name) and isinstance(b.value, ast.Call)):
+        return
+    t = b.targets[0].id
+    if not (isinstance(e, ast.Assign) and len(e.targets) == 1 and isinstance(e.value, ast.Name) and e.value.id == t
+            and isinstance(e.targets[0], (ast.Tuple, ast.Name))):
+        return
+    uses = sum(1 for st in s.body + s.orelse + [x for h in s.handlers for x in h.body] for x in ast.walk(st)
+               if isinstance(x, ast.Name) and x.id == t)
+    if uses != 2:
+        return
+    if any(h.type is None or (isinstance(h.type, ast.Name) and h.type.id in ('Exception', 'BaseException', 'ValueError', 'TypeError'))
+           for h in s.handlers):
+        return
+    b.targets = e.targets
+    s.orelse = s.orelse[1:]
+
+
+def _fold_conditional_adjust(stmts):
+    """C31: `x = E0` directly followed by `if c: x += E1` (E0 a constant, name or attribute chain; c does not read x)
+    ->  `if c: x = E0 + E1  else: x = E0`: every value x can have is then one expression."""
+    import copy
+    out = []
+    i = 0
+    while i < len(stmts):
+        a = stmts[i]
+        b = stmts[i + 1] if i + 1 < len(stmts) else None
+        if isinstance(a, ast.Assign) and len(a.targets) == 1 and isinstance(a.targets[0], ast.Name) \
+                and (isinstance(a.value, (ast.Constant, ast.Name)) or _chain_text(a.value) is not None) \
+                and isinstance(b, ast.If) and not b.orelse and len(b.body) == 1 and isinstance(b.body[0], ast.AugAssign) \
+                and isinstance(b.body[0].op, (ast.Add, ast.Sub)) and isinstance(b.body[0].target, ast.Name) \
+                and b.body[0].target.id == a.targets[0].id \
+                and not any(isinstance(x, ast.Name) and x.id == a.targets[0].id for x in ast.walk(b.test)) \
+                and not any(isinstance(x, ast.Name) and x.id == a.targets[0].id for x in ast.walk(b.body[0].value)) \
+                and not any(isinstance(x, (ast.Call, ast.NamedExpr)) for x in ast.walk(b.test)):
+            x = a.targets[0].id
+            adj = ast.Assign(targets=[ast.Name(id=x, ctx=ast.Store())],
+                             value=ast.BinOp(left=copy.deepcopy(a.value), op=b.body[0].op, right=b.body[0].value))
+            plain = ast.Assign(targets=[ast.Name(id=x, ctx=ast.Store())], value=copy.deepcopy(a.value))
+            node = ast.If(test=b.test, body=[adj], orelse=[plain])
+            ast.copy_location(node, b)
+            for y in ast.walk(node):
+                if not hasattr(y, 'lineno'):
+                    y.lineno, y.col_offset = b.lineno, b.col_offset
+            ast.fix_missing_locations(node)
+            out.append(node)
+            i += 2
+            continue
+        out.append(a)
+        i += 1
+    return out
+
+
 def _canon_block(stmts):
+    if _FUNC_TAIL[0] is stmts:
+        new = _fold_conditional_adjust(stmts)
+        _FUNC_TAIL[0] = new
+        stmts = new
+    else:
+        stmts = _fold_conditional_adjust(stmts)
     out = []
     for s in stmts:
         if isinstance(s, (ast.FunctionDef, ast.AsyncFunctionDef, ast.ClassDef)):
@@ -545,6 +634,9 @@ def _canon_block(stmts):
             continue
         if isinstance(s, ast.While):
             _rotate_walrus_while(s, out)
+            _hoist_leading_breaks(s, last=(s is stmts[-1] and _FUNC_TAIL[0] is stmts))
+        if isinstance(s, ast.Try):
+            _merge_try_else_unpack(s)
         _hoist_walrus(s, out)
         # C19: `v = next((E for T in IT if C), D)` -> first-match loop with else
         lowered = _lower_next(s)
@@ -766,7 +858,11 @@ def canon_function(fdef):
     _inline_partials(fdef)
     t = _Expr()
     fdef.body = [t.visit(s) for s in fdef.body]
-    fdef.body = _canon_block(fdef.body)
+    _FUNC_TAIL[0] = fdef.body
+    try:
+        fdef.body = _canon_block(fdef.body)
+    finally:
+        _FUNC_TAIL[0] = None
     # run C4..C6 to a fixed point is not needed: _canon_block recurses bottom-up
     return fdef
 
